@@ -230,7 +230,7 @@ def match_prefix_variants(rule):
     return [x for x in out if x != rule]
 
 
-SPECIAL_EDITS = ("respell", "match_prefix", "respell_key", "tagged_spelling", "add_member")
+SPECIAL_EDITS = ("respell", "match_prefix", "respell_key", "tagged_spelling", "add_member", "insert_empty")
 
 
 def single_edits(signed, rng, limit=None):
@@ -260,6 +260,11 @@ def single_edits(signed, rng, limit=None):
             if v and v[0] == "MATCH" and all(isinstance(x, str) for x in v):
                 for alt in match_prefix_variants(v):
                     edits.append((path, "match_prefix", alt))
+            if all(isinstance(x, str) for x in v) and path[-1] in ("command", "run", "expected_command"):
+                # an empty word more or less: another argument list
+                edits.append((path, "insert_empty", rng.randrange(len(v) + 1)))
+                if "" in v:
+                    edits.append((path, "del_elem", v.index("")))
             if v:
                 edits.append((path, "del_elem", rng.randrange(len(v))))
                 edits.append((path, "dup_elem", rng.randrange(len(v))))
@@ -303,6 +308,8 @@ def single_edits(signed, rng, limit=None):
                 get_at(d, path)[arg[0]] = copy.deepcopy(arg[1])
             elif kind == "del_elem":
                 del get_at(d, path)[arg]
+            elif kind == "insert_empty":
+                get_at(d, path).insert(arg, "")
             elif kind == "dup_elem":
                 lst = get_at(d, path)
                 lst.insert(arg, copy.deepcopy(lst[arg]))
